@@ -469,6 +469,18 @@ func actualShape(xsrc string, d gsDesc) (gsShape, string) {
 	want := builtinOf[d.Fn]
 	inspect := func(n ast.Node) bool {
 		switch v := n.(type) {
+		case *ast.FuncDecl:
+			if d.Sh == "fmt" && v.Name != nil && v.Name.Name == "other" {
+				return false // the auxiliary real use of the package; not the site of the description
+			}
+		case *ast.ExprStmt:
+			// `fmt.Println()` becomes the bare command `echo`
+			if id, ok := v.X.(*ast.Ident); ok && id.Name == want && want != "" {
+				s.FmtSite, s.Builtin = "builtin", want
+				if d.Pos == "stmt" {
+					s.Cmd = "cmd"
+				}
+			}
 		case *ast.CallExpr:
 			switch fn := v.Fun.(type) {
 			case *ast.Ident:
